@@ -31,6 +31,90 @@ def reference_step(g: GF2):
     return crc
 
 
+def _split_register(prog, chk, fi, ex, ret: Term, exits, where):
+    """The running value is carried through the loop in several variables s_1..s_k (its low byte and the rest, say) and put together by the returned
+    expression R(s_1..s_k).  With A = R as a GF(2) map of the pieces:  (1) A(initial pieces) is the start value, (2) every piece keeps the width it has
+    initially (for a 16-bit start value), (3) A(updated pieces) = bit-serial step(A(pieces), byte) as maps of (pieces, byte).  By induction the returned
+    value is the CRC register, as in the one-variable case."""
+    from bfsa.terms import subterms
+
+    lid = exits[0].args[0]
+    lr = ex.loops[lid]
+    regs = sorted({x.args[1] for x in exits})
+    params = fi.params
+    it = lr.iter
+    chk.require(lr.kind == "for" and it is not None and it.op == "param" and it.args[0] == params[0],
+                "C15.R3.iterates-data-in-order", FN, "for <byte> in %s" % (show(it, 4) if it is not None else "?"), where,
+                "one step per element of the data parameter, in order", "loop does not iterate directly over the data parameter")
+    a = fi.node.args
+    try:
+        dflt = prog.fold(fi.module, a.defaults[-1]) if a.defaults else None
+    except NotConst:
+        dflt = None
+    chk.require(dflt == 0xFFFF and len(a.defaults) == 1, "C15.R3.default-start-0xFFFF", FN, "start_value default = %r" % (dflt,), where, "default start value is 0xFFFF")
+    # (1) initial pieces as maps of the 16-bit start value
+    g0 = GF2(16)
+
+    def leaf0(t: Term):
+        if t.op == "param" and t.args[0] == params[1]:
+            return g0.var(0, 16)
+        if t.op == "call" and show(t.args[0]) == "int" and len(t.args[1]) == 1 and unsnap(t.args[1][0]).op == "param" and unsnap(t.args[1][0]).args[0] == params[1]:
+            return g0.var(0, 16)
+        if t.op in ("loopvar", "elem", "param", "sym", "attr", "sub", "loopexit"):
+            raise Unsupported("initial value %s is not a function of the start value" % show(t, 4))
+        return None
+
+    try:
+        inits = {r: g0.eval(unsnap(lr.init[r]), leaf0) for r in regs}
+        widths = {r: g0.width(inits[r]) for r in regs}
+        start = g0.eval(ret, lambda t: inits[t.args[1]] if t.op == "loopexit" and t.args[0] == lid else leaf0(t))
+    except (Unsupported, KeyError) as e:
+        chk.fail("C15.R3.init-from-start-value", FN, "initial values of %s" % ", ".join(regs), where, "the pieces of the register are not initialised by GF(2)-affine functions of the start value: %s" % e)
+        return
+    chk.require(start == g0.var(0, 16), "C15.R3.init-from-start-value", FN, "%s = pieces of start_value" % ", ".join(regs), where,
+                "put together as the return statement does, the initial pieces are the start-value parameter", "the initial pieces do not put together to the start value")
+    # (2), (3) over the pieces and the byte
+    offs, o = {}, 0
+    for r in regs:
+        offs[r] = o
+        o += widths[r]
+    g = GF2(o + 8)
+    elem = lr.target
+
+    def leaf(t: Term):
+        if t.op == "loopvar" and t.args[0] == lid and t.args[1] in offs:
+            return g.var(offs[t.args[1]], widths[t.args[1]])
+        if elem is not None and t is elem:
+            return g.var(o, 8)
+        if t.op in ("loopvar", "elem", "param", "sym", "attr", "sub"):
+            raise Unsupported("value %s is not a function of (register pieces, byte)" % show(t, 4))
+        return None
+
+    try:
+        nxt = {r: g.eval(unsnap(lr.next[r]), leaf) for r in regs}
+        alpha = g.eval(ret, lambda t: g.var(offs[t.args[1]], widths[t.args[1]]) if t.op == "loopexit" and t.args[0] == lid else leaf(t))
+        alpha_next = g.eval(ret, lambda t: nxt[t.args[1]] if t.op == "loopexit" and t.args[0] == lid else leaf(t))
+    except (Unsupported, KeyError) as e:
+        raise AnalysisError("crc8404B: register carried in %d variables, update not interpretable in the GF(2) domain: %s" % (len(regs), e))
+    chk.ok("C15.R3.return-is-final-register", FN, "return " + show(ret, 5), where, "returned term puts together the loop-carried pieces %s at loop exit" % ", ".join(regs))
+    grow = [r for r in regs if g.width(nxt[r]) > widths[r]]
+    crc = g.xor(alpha, g.var(o, 8))
+    for _ in range(8):
+        lsb = crc[0]
+        sh = g.shr(crc, 1)
+        crc = [x ^ (lsb if (POLY >> i) & 1 else 0) for i, x in enumerate(sh)]
+    diff = [i for i in range(16) if alpha_next[i] != crc[i]]
+    chk.require(not diff, "C15.R1.transfer-matrix", FN, "cur_crc' = f(cur_crc, byte)", where,
+                "with the register R(%s) as the return statement builds it: R(updated pieces) equals the 8-fold bit-serial step of R(pieces) for polynomial 0x8408 (all 16 rows)" % ", ".join(regs),
+                "rows %s of the put-together register differ from the bit-serial CRC-16/MCRF4XX step" % diff)
+    high = [i for i in range(16, WIDTH) if alpha_next[i]]
+    chk.require(not high and not grow and g.width(alpha) <= 16, "C15.R2.closure-16-bit", FN, "bits >= 16 of cur_crc'", where,
+                "every piece keeps its initial width (%s) and the register they form has no bit >= 16 (inductive 16-bit bound)" % ", ".join("%s: %d" % (r, widths[r]) for r in regs),
+                "a piece of the register can outgrow its width (%s) or the register does not fit in 16 bits" % (grow or high[:6]))
+    chk.info["loop_body"] = "; ".join("%s' = %s" % (r, show(lr.next[r], 10)) for r in regs)
+    chk.assume("data yields integers 0..255 (bytes / bytearray / iterable of byte values); start_value is a 16-bit integer")
+
+
 def run(prog, chk, tier):
     fi = prog.func(FN)
     chk.checker_cmd = "./check C15"
@@ -70,6 +154,9 @@ def run(prog, chk, tier):
         from bfsa.terms import subterms
 
         exits = [x for x in subterms(ret) if x.op == "loopexit"]
+        if len(exits) > 1 and len({x.args[0] for x in exits}) == 1:
+            _split_register(prog, chk, fi, ex, ret, exits, where)
+            return
         if len(exits) != 1:
             chk.fail("C15.R3.return-is-final-register", FN, show(ret, 6), where, "return value is not a function of the loop register alone")
             return
